@@ -132,19 +132,24 @@ def node_at(tree, path):
 
 
 def logic_subtrees(tree, errs):
-    for e in errs:
-        if e.is_logic_error:
-            node = node_at(tree, e.document_path)
-            sub = node[-1] if node and isinstance(node[-1], dict) else {}
-            have = set(k for k in sub if isinstance(k, str) and DEFKEY.match(k) and k.startswith(e.rule + ' '))
-            want = set('%s definition %d' % (e.rule, i) for i, ch in e.definitions_errors.items() if ch)
-            if have != want:
-                return ('the %s error at %r has failing definitions %r but the sub-trees %r'
-                        % (e.rule, tuple(e.document_path), sorted(want), sorted(have)))
-        elif codec.is_group(e):
-            msg = logic_subtrees(tree, e.info[0])
-            if msg:
-                return msg
+    """several *of errors of one rule can sit at one document path (the same key judged by keysrules and by valuesrules):
+    the sub-trees at a path are those of all of them together"""
+    want = {}
+
+    def collect(es):
+        for e in es:
+            if e.is_logic_error:
+                key = (tuple(e.document_path), e.rule)
+                want.setdefault(key, set()).update('%s definition %d' % (e.rule, i) for i, ch in e.definitions_errors.items() if ch)
+            elif codec.is_group(e):
+                collect(e.info[0])
+    collect(errs)
+    for (path, rule), w in want.items():
+        node = node_at(tree, path)
+        sub = node[-1] if node and isinstance(node[-1], dict) else {}
+        have = set(k for k in sub if isinstance(k, str) and DEFKEY.match(k) and k.startswith(rule + ' '))
+        if have != w:
+            return ('the %s error(s) at %r have the failing definitions %r but the sub-trees %r' % (rule, path, sorted(w), sorted(have)))
     return None
 
 
